@@ -130,9 +130,11 @@ class G:
 
     def pos_value(self):
         self.n_pos += 1
+        # names are string literals; a quarter of them carry blanks, quote characters, non-ASCII letters
+        deco = self.pick(["", "", "", "", "", "", " gate", " it's", ' the "old" one', " \u00e9\u65e5", " a'b\"c"])
         return {
             "t": "pos",
-            "name": f"m{self.n_pos}",
+            "name": f"m{self.n_pos}" + deco,
             "x": self.i(-3, 70),
             "xh": self.b(1, 3),
             "y": self.i(-3, 70),
